@@ -209,7 +209,10 @@ Definition known_sites : list (string * string) := [
   ("pkg/pdfcpu/stamp.go", "removeArtifacts");
   ("pkg/pdfcpu/validate/metaData.go", "catalogMetaData");
   ("pkg/pdfcpu/writeImage.go", "streamBytes");
-  ("pkg/pdfcpu/types/streamdict.go", "StreamDict.Encode")
+  ("pkg/pdfcpu/types/streamdict.go", "StreamDict.Encode");
+  (* xref stream content is decoded before the context exists: saveDecodedStreamContent(nil, ...) ->
+     decodeLimit(nil) = default (defect class xrefstm-decode-ignores-configured-limit) *)
+  ("pkg/pdfcpu/read.go", "xRefStreamDict")
 ].
 (* constructions of types.ObjectStreamDict that may leave MaxDecodeBytes unset: the write-side
    constructor (its content is produced by the writer, never decoded from a file) *)
